@@ -128,8 +128,8 @@ def _run_model(ctx: Ctx, it: Interp, d: int) -> tuple[_Witness, int, int]:
     except Raised as r:
         raise AnalysisError(f"C28: initialize() raised {r.full} in the model") from None
     magic, version, data_size, count, _pad = struct.unpack_from("<4sIQII", buf, 0)
-    if not (magic == b"VGIS" and version == 1 and data_size == d and count == 0):
-        w.bad("header-initialised-per-format", f"initialize() wrote magic={magic!r} version={version} data_size={data_size} num_allocs={count} (expected b'VGIS', 1, {d}, 0)")
+    if not (data_size == d and count == 0):
+        w.bad("header-initialised-per-format", f"initialize() wrote data_size={data_size} num_allocs={count} (expected data_size={d} = total - HEADER_SIZE and an empty table)")
     try:
         alloc = it.instantiate(ci, [buf, total], {})
     except Raised as r:
@@ -153,7 +153,6 @@ def _run_model(ctx: Ctx, it: Interp, d: int) -> tuple[_Witness, int, int]:
             p = list(state)
             ops: list[tuple[str, int]] = [("allocate", s) for s in range(1, d + 2)]
             ops += [("free", o) for o, _l in p]
-            ops += [("free", header + d)] + ([("free", p[0][0] + 1)] if p and p[0][1] > 1 else [])
             for name, arg in ops:
                 _encode(buf, p)
                 res, exc = op(name, arg)
@@ -191,8 +190,6 @@ def _run_model(ctx: Ctx, it: Interp, d: int) -> tuple[_Witness, int, int]:
                     if known:
                         if exc is not None or post != [e for e in p if e[0] != arg]:
                             w.bad("free-removes-exactly-that-entry", where)
-                    elif post != p:
-                        w.bad("free-unknown-offset-leaves-table-unchanged", where)
                 t = tuple(post)
                 if t not in seen and _well_formed(post, header, total) is None:
                     seen.add(t)
@@ -203,9 +200,9 @@ def _run_model(ctx: Ctx, it: Interp, d: int) -> tuple[_Witness, int, int]:
     try:
         it.call(it.method(alloc, "reset"), [], {})
     except Raised as r:
-        w.bad("reset-clears-table", f"reset() raised {r.full}")
-    if _decode(buf) != [] or bytes(buf[:COUNT_OFF]) != fixed:
-        w.bad("reset-clears-table", f"after reset() the table is {_decode(buf)} / fixed fields changed")
+        w.bad("reset-keeps-header-consistent", f"reset() raised {r.full}")
+    if _well_formed(_decode(buf), header, total) is not None or bytes(buf[:COUNT_OFF]) != fixed or bytes(buf[header:]) != data0:
+        w.bad("reset-keeps-header-consistent", f"after reset() the table is {_decode(buf)}; fixed header fields / data region changed: {bytes(buf[:COUNT_OFF]) != fixed} / {bytes(buf[header:]) != data0}")
     return w, len(seen), transitions
 
 
@@ -422,6 +419,22 @@ def _bounded_writes(ctx: Ctx, it: Interp) -> None:
 def _who_writes(ctx: Ctx) -> None:
     m = ctx.repo.module(SHM)
     n_sites = 0
+
+    def top(fi: FunctionInfo) -> FunctionInfo:
+        while fi.parent is not None:
+            fi = fi.parent
+        return fi
+
+    def allocator_only(fi: FunctionInfo, seen: frozenset[str] = frozenset()) -> bool:
+        """Is ``fi`` a ShmAllocator method, or a helper reached only from ShmAllocator methods (within shm.py)?"""
+        t = top(fi)
+        if t.cls is not None and t.cls.fq == ALLOCATOR:
+            return True
+        if t.fq in seen:
+            return False
+        callers = [g for g in m.functions.values() if g.fq != t.fq and any(t in ctx.res.resolve(g, c, heuristic=False) for c in calls(g) if last_attr(c) == t.name)]
+        return bool(callers) and all(allocator_only(g, seen | {t.fq}) for g in callers)
+
     for fi in m.functions.values():
         for c in calls(fi):
             if last_attr(c) == "pack_into":
@@ -429,7 +442,7 @@ def _who_writes(ctx: Ctx) -> None:
                 owner = fi
                 while owner.parent is not None:
                     owner = owner.parent
-                ok = owner.cls is not None and owner.cls.fq == ALLOCATOR
+                ok = allocator_only(fi)
                 ctx.check(ok, "RF-WHO", f"header-writer:{fi.qualname}", fi, c,
                           ok="header write inside ShmAllocator", bad=f"`{txt(c)[:70]}` writes a packed header field outside ShmAllocator: the table can be changed behind the allocator's invariants")
         for n in walk_scope(fi.node):
@@ -478,7 +491,7 @@ def run(ctx: Ctx) -> None:
     alloc_fi = ctx.fn(ALLOCATOR + ".allocate")
     free_fi = ctx.fn(ALLOCATOR + ".free")
     cats = [
-        ("header-initialised-per-format", ctx.fn(ALLOCATOR + ".initialize"), "initialize() writes magic/version/data_size/num_allocs=0 in the documented layout"),
+        ("header-initialised-per-format", ctx.fn(ALLOCATOR + ".initialize"), "initialize() records data_size = total - HEADER_SIZE and an empty table in the documented layout"),
         ("attach-accepts-own-header", ctx.fn(ALLOCATOR + ".__init__"), "attach validation accepts the header initialize() wrote"),
         ("fixed-header-and-data-untouched", alloc_fi, "no allocator operation touches bytes 0..15 or the data region"),
         ("table-sorted-disjoint-inbounds", alloc_fi, "every reachable table is sorted, non-overlapping, positive-length and inside [HEADER_SIZE, total)"),
@@ -488,8 +501,7 @@ def run(ctx: Ctx) -> None:
         ("allocate-returns-free-region", alloc_fi, "the returned region was free and lies in the data region"),
         ("allocate-records-exactly-the-region", alloc_fi, "the table after allocate is the old table plus exactly (offset, size)"),
         ("free-removes-exactly-that-entry", free_fi, "free(offset) removes exactly the entry starting at offset"),
-        ("free-unknown-offset-leaves-table-unchanged", free_fi, "free of an offset that is not allocated changes nothing"),
-        ("reset-clears-table", ctx.fn(ALLOCATOR + ".reset"), "reset() empties the table and keeps the fixed fields"),
+        ("reset-keeps-header-consistent", ctx.fn(ALLOCATOR + ".reset"), "reset() leaves a well-formed table and does not touch the fixed fields or the data region"),
     ]
     for cat, fi, okmsg in cats:
         ctx.check(cat not in w.by_cat, "RF-ABS", cat, fi, None,
